@@ -42,6 +42,7 @@ static const menu_t MENU[] = {
     {":OTH:VAL?", 4, 4, 4, 0, 0, 2},
     {"TEST:TWO?", 3, 3, 3, 0, 0, 1},
     {"BAD:CMD", 0, 0, 0, 0, -113, 4},
+    {"TEST:SET 5,", 0, 0, 0, 0, -101, 0}, /* list ending with a separator: command error, no handler, the path is left alone */
 };
 #define NMENU (sizeof MENU / sizeof MENU[0])
 static scpi_interface_t itf = { e_, w_, NULL, NULL, NULL };
@@ -78,6 +79,7 @@ void h_msg_dispatch(void) {
     int path = 0, k = 0, ek = 0, responded = 0; char exp[OUTMAX]; int en = 0;
     for (u = 0; u < nu; u++) {
         const menu_t *m = &MENU[sel[u]]; int absolute = (m->txt[0] == ':' || m->txt[0] == '*');
+        if (m->errs == -101) { __CPROVER_assert(ek < T.errn && T.err[ek] == -101, "C05: a malformed parameter list queues a command error and reaches no handler"); ek++; continue; }
         int h = absolute || path == 0 ? m->root : path == 1 ? m->relT : path == 2 ? m->relO : 0;
         /* a compound spelling written relative to a non-empty path names PATH:spelling, which this table does not define */
         if (!absolute && path != 0 && m->path != 0) h = 0;
@@ -105,9 +107,9 @@ void h_msg_dispatch(void) {
 /* C08: any split into two input calls behaves like one call (two messages in the stream, so that
  * an executed message still has bytes behind it in the buffer) */
 void h_msg_chunking(void) {
-    static inst_t A, B; static trace_t TA, TB; char msg[96]; int sel[NUNITS], nu = NSEL, u;
+    static inst_t A, B; static trace_t TA, TB; char msg[64]; /* <= 64: CBMC keeps arrays up to 64 elements field-sensitive, so a concrete stream stays concrete */ int sel[NUNITS], nu = NSEL, u;
     for (u = 0; u < NUNITS; u++) sel[u] = pick();
-    int len = build(msg, 60, sel, nu); int s2 = pick(); len += build(msg + len, 30, &s2, 1);
+    int len = build(msg, 44, sel, nu); int s2 = pick(); len += build(msg + len, 20, &s2, 1);
     /* every split point, one after the other (the stream is fixed per job, so each pass is concrete for CBMC) */
     int cut;
     init(&A); cur = &TA; SCPI_Input(&A.ctx, msg, len); TA.rest = (int) A.ctx.buffer.position;
@@ -118,6 +120,21 @@ void h_msg_chunking(void) {
     }
     __CPROVER_assert(!TA.ovf && !TB.ovf, "trace buffers large enough");
     REACH("msg_chunking");
+}
+
+/* C08, cheap form: the stream (this message + one more) in ONE call versus line by line (split exactly at the
+ * message boundary).  Concrete split, so it costs seconds; it is the case in which an executed message still has
+ * bytes behind it in the buffer. */
+void h_msg_twolines(void) {
+    static inst_t A, B; static trace_t TA, TB; char msg[64]; /* <= 64: CBMC keeps arrays up to 64 elements field-sensitive, so a concrete stream stays concrete */ int sel[NUNITS], nu = NSEL, u;
+    for (u = 0; u < NUNITS; u++) sel[u] = pick();
+    int l1 = build(msg, 44, sel, nu); int s2 = pick(); int len = l1 + build(msg + l1, 20, &s2, 1);
+    init(&A); init(&B);
+    cur = &TA; SCPI_Input(&A.ctx, msg, len); TA.rest = (int) A.ctx.buffer.position;
+    cur = &TB; SCPI_Input(&B.ctx, msg, l1); SCPI_Input(&B.ctx, msg + l1, len - l1); TB.rest = (int) B.ctx.buffer.position;
+    __CPROVER_assert(same(&TA, &TB), "C08: same handler invocations, parameters, output, errors and remainder whether the two messages arrive in one call or in two");
+    __CPROVER_assert(!TA.ovf && !TB.ovf, "trace buffers large enough");
+    REACH("msg_twolines");
 }
 
 /* C09: message B after message A behaves like B on a fresh context (status/error queue effects aside) */
